@@ -863,7 +863,7 @@ var vFaultEvery = uint64(1)
 
 var (
 	vScratch   string
-	vTimeout   = 5 * time.Second
+	vTimeout   = 30 * time.Second
 	vHangs     atomic.Int64
 	vMaxHangs  = int64(3)
 )
